@@ -45,7 +45,7 @@ int Normaliser::polyAtom(const char *kind, const Poly &p, int rep, int bytes) {
   int t = TT.mk(std::string(kind) == "invpoly" ? "inv" : "sqrt", {rep}, 0, bytes);
   polyAtoms[key] = t; return t;
 }
-Poly Normaliser::atom(int t) { atoms++; Poly p; p[Mono{{t, 1}}] = Q(1); return p; }
+Poly Normaliser::atom(int t) { atoms++; if (C) { int ct = C->canon(t); if (ct != t) { const Term &y = TT.t[ct]; if (y.op == TT.OP_C) { Poly p; if (y.k) p[Mono()] = Q((long long)y.k); return p; } t = ct; } } Poly p; p[Mono{{t, 1}}] = Q(1); return p; }
 
 static bool isSignMask(const Term &c, int bytes) { return c.op == TT.OP_C && ((bytes == 4 && (int32_t)c.k == INT32_MIN) || (bytes == 8 && c.k == INT64_MIN)); }
 static bool dyadic(double d, Q &out) {
@@ -172,6 +172,8 @@ int Canon::canon(int t) {
   else if (x.op == TT.OP_FSUB && TT.t[x.a[0]].op == TT.OP_CF && TT.t[x.a[0]].k == INT64_MIN) r = canon(TT.mk(TT.OP_FNEG, {x.a[1]}, 0, x.bytes));
   else if (x.op == TT.OP_FNEG && TT.t[x.a[0]].op == TT.OP_FNEG) r = TT.t[x.a[0]].a[0];
   else if (x.op == TT.OP_FNEG && TT.t[x.a[0]].op == TT.OP_CF) r = TT.cfp(-TT.cfval(x.a[0]), x.bytes);
+  else if (x.op == TT.OP_ADD && x.a[0] == x.a[1]) r = mk(TT.OP_MUL, {x.a[0], TT.cint(2, x.bytes)}, 0, x.bytes);
+  else if ((op == "sdiv" || op == "udiv") && x.a[0] == x.a[1]) r = TT.cint(1, x.bytes); // x/x: division by zero is undefined, so the quotient is 1 wherever it is defined
   else if (x.op == TT.OP_SUB && TT.t[x.a[1]].op == TT.OP_C) r = mk(TT.OP_ADD, {x.a[0], TT.cint(-TT.t[x.a[1]].k, x.bytes)}, 0, x.bytes);
   else if (x.op == TT.OP_SHL && TT.t[x.a[1]].op == TT.OP_C && TT.t[x.a[1]].k >= 0 && TT.t[x.a[1]].k < 63) { int64_t m = (int64_t)1 << TT.t[x.a[1]].k; if (x.bytes < 8) m = (int64_t)((uint64_t)m << (64 - 8 * x.bytes)) >> (64 - 8 * x.bytes); r = mk(TT.OP_MUL, {x.a[0], TT.cint(m, x.bytes)}, 0, x.bytes); }
   else if (x.op == TT.OP_PIECE) {
